@@ -19,7 +19,7 @@ type C01Case struct {
 }
 
 func genC01(t *rapid.T) C01Case {
-	lim := genLimits(t)
+	lim := genLimitsGiant(t)
 	c := C01Case{Blocks: genHistory(t, lim, true)}
 	addPrunes(t, c.Blocks)
 	nm := rapid.IntRange(2, 3).Draw(t, "nmaps")
@@ -194,5 +194,5 @@ func runC01(c C01Case) *Result {
 }
 
 func TestC01(t *testing.T) {
-	runSpec(t, Spec[C01Case]{ID: "C01", Gen: genC01, Run: runC01})
+	runSpec(t, Spec[C01Case]{ID: "C01", Gen: genC01, Run: runC01, Pre: preScaleC01})
 }
